@@ -1,14 +1,19 @@
 #!/bin/bash
 # usage: mutrun.sh <patch.diff> <prop> [check args...]
-# Applies a seeded change to /repo, runs ./check, and always reverts.
+# Applies a seeded change to the repository under test, runs ./check, and always reverts.
+# MUT_REPO (default /repo) names the tree the change is applied to - a scratch worktree
+# lets this run beside other work; MUT_VERIF (default: this script's tree) names the
+# /verif tree whose check is run.
 set -u
 patch=$1; prop=$2; shift 2
-cd /repo || exit 2
+repo=${MUT_REPO:-/repo}
+verif=${MUT_VERIF:-$(cd "$(dirname "$0")/.." && pwd)}
+cd "$repo" || exit 2
 if ! git diff --quiet; then echo "repo not clean"; exit 2; fi
 git apply "$patch" || { echo "patch does not apply"; exit 2; }
-cd /verif
-VERIF_NO_EVIDENCE=1 ./check "$prop" "$@" 2>&1 | tail -12
+cd "$verif"
+VERIF_REPO=$repo VERIF_NO_EVIDENCE=1 ./check "$prop" "$@" 2>&1 | tail -12
 rc=${PIPESTATUS[0]}
-git -C /repo checkout -- .
+git -C "$repo" checkout -- .
 echo "mutrun exit=$rc"
 exit $rc
